@@ -22,4 +22,5 @@ def main():
         sys.exit(2)
 
 
-main()
+if __name__ == "__main__":
+    main()
